@@ -130,6 +130,7 @@ def translate(impl_root):
     _both("H_SCALE", _src(py, hs[0]), "H0 = const*h", out)
     out.append(_extract_parms(cls[0]))
     out.append(_copy_and_reduce(cls[0]))
+    out.append(_dispatch(cls[0]))
     return HEADER + "\n".join(out) + "\n"
 
 
@@ -313,6 +314,124 @@ def _copy_and_reduce(cls):
     return ("(* Cosmo.copy / __copy__ / __deepcopy__ and _pars / __reduce__: constructor arguments (H0, h, flat, omega_m,\n"
             "   omega_l, omega_k) of the new instance, in terms of the remembered inputs / the accessor values *)\n"
             + copy_def + "\n" + red_def)
+
+
+# ---------------------------------------------------------------------------------------------
+# the four-way scalar/array dispatch of Dc / Dm / Da / Dl / sigmacritinv and the two-way one of Ez_inverse / dV:
+# python ast -> Gallina decision function over (isscalar a, isscalar b, len a != len b) returning the C entry point chosen
+# 0 = scalar, 1 = _vec1 (array, scalar), 2 = _vec2 (scalar, array), 3 = _2vec, 4 = ValueError.  Checked on the way: the C
+# method names, the argument order, `_as_c_order` applied to exactly the array arguments, `return` of the result.
+# ---------------------------------------------------------------------------------------------
+_CNAME = {"Dc": "Dc", "Dm": "Dm", "Da": "Da", "Dl": "Dl", "sigmacritinv": "scinv"}
+_SUFFIX = {"": 0, "_vec1": 1, "_vec2": 2, "_2vec": 3}
+
+
+def _isscalar_atom(e, a, b):
+    """isscalar(x) / not isscalar(x) -> Gallina"""
+    neg = False
+    if isinstance(e, ast.UnaryOp) and isinstance(e.op, ast.Not):
+        neg, e = True, e.operand
+    if (isinstance(e, ast.Call) and isinstance(e.func, ast.Name) and e.func.id == "isscalar" and len(e.args) == 1
+            and isinstance(e.args[0], ast.Name) and e.args[0].id in (a, b) and not e.keywords):
+        v = "sa" if e.args[0].id == a else "sb"
+        return "(negb %s)" % v if neg else v
+    raise TranslateError("dispatch: condition atom outside the subset: %s" % ast.dump(e))
+
+
+def _disp_cond(e, a, b):
+    if isinstance(e, ast.BoolOp) and isinstance(e.op, ast.And):
+        return "(" + " && ".join(_isscalar_atom(x, a, b) for x in e.values) + ")"
+    return _isscalar_atom(e, a, b)
+
+
+def _is_raise_value_error(st):
+    return (isinstance(st, ast.Raise) and isinstance(st.exc, ast.Call) and isinstance(st.exc.func, ast.Name)
+            and st.exc.func.id == "ValueError")
+
+
+def _disp_branch(body, meth, a, b, res):
+    """statements of one branch -> Gallina code expression"""
+    conv, i = set(), 0
+    while (i < len(body) and isinstance(body[i], ast.Assign) and len(body[i].targets) == 1
+           and isinstance(body[i].targets[0], ast.Name) and isinstance(body[i].value, ast.Call)
+           and isinstance(body[i].value.func, ast.Name) and body[i].value.func.id == "_as_c_order"):
+        t = body[i].targets[0].id
+        arg = body[i].value.args
+        if t not in (a, b) or len(arg) != 1 or not isinstance(arg[0], ast.Name) or arg[0].id != t:
+            raise TranslateError("dispatch %s: conversion of %r" % (meth, t))
+        conv.add(t)
+        i += 1
+    rest = body[i:]
+    if len(rest) == 1 and _is_raise_value_error(rest[0]) and not conv:
+        return "4%nat"
+    guard = None
+    if len(rest) == 2 and isinstance(rest[0], ast.If):
+        g = rest[0]
+        t = g.test
+        ok = (isinstance(t, ast.Compare) and len(t.ops) == 1 and isinstance(t.ops[0], ast.NotEq)
+              and all(isinstance(x, ast.Call) and isinstance(x.func, ast.Name) and x.func.id == "len" and len(x.args) == 1
+                      and isinstance(x.args[0], ast.Name) for x in (t.left, t.comparators[0]))
+              and {t.left.args[0].id, t.comparators[0].args[0].id} == {a, b}
+              and len(g.body) == 1 and _is_raise_value_error(g.body[0]) and not g.orelse)
+        if not ok:
+            raise TranslateError("dispatch %s: length guard outside the subset" % meth)
+        guard = True
+        rest = rest[1:]
+    if not (len(rest) == 1 and isinstance(rest[0], ast.Assign) and len(rest[0].targets) == 1
+            and isinstance(rest[0].targets[0], ast.Name)):
+        raise TranslateError("dispatch %s: branch is not <conversions>; [length guard;] result = call" % meth)
+    if res[0] is None:
+        res[0] = rest[0].targets[0].id
+    if rest[0].targets[0].id != res[0]:
+        raise TranslateError("dispatch %s: result variable changes" % meth)
+    c = rest[0].value
+    ok = (isinstance(c, ast.Call) and isinstance(c.func, ast.Attribute) and isinstance(c.func.value, ast.Attribute)
+          and c.func.value.attr == "_cosmo" and isinstance(c.func.value.value, ast.Name) and c.func.value.value.id == "self"
+          and [getattr(x, "id", None) for x in c.args] == [a, b] and not c.keywords)
+    if not ok:
+        raise TranslateError("dispatch %s: call is not self._cosmo.<name>(%s, %s)" % (meth, a, b))
+    name = c.func.attr
+    base = _CNAME[meth]
+    if not name.startswith(base) or name[len(base):] not in _SUFFIX:
+        raise TranslateError("dispatch %s: C entry point %r" % (meth, name))
+    code = _SUFFIX[name[len(base):]]
+    need = {0: set(), 1: {a}, 2: {b}, 3: {a, b}}[code]
+    if conv != need:
+        raise TranslateError("dispatch %s: %s called with conversions %r" % (meth, name, sorted(conv)))
+    if guard and code != 3:
+        raise TranslateError("dispatch %s: length guard in front of %s" % (meth, name))
+    return "(if ne then 4%%nat else %d%%nat)" % code if guard else "%d%%nat" % code
+
+
+def _dispatch(cls):
+    out = ["(* the scalar/array dispatch of the two-argument methods: (isscalar zmin, isscalar zmax, len zmin != len zmax) ->",
+           "   0 scalar entry point, 1 _vec1, 2 _vec2, 3 _2vec, 4 ValueError *)"]
+    for meth in ("Dc", "Dm", "Da", "Dl", "sigmacritinv"):
+        fn = [n for n in cls.body if isinstance(n, ast.FunctionDef) and n.name == meth]
+        if len(fn) != 1:
+            raise TranslateError("Cosmo.%s not found exactly once" % meth)
+        args = [x.arg for x in fn[0].args.args]
+        if len(args) != 3 or args[0] != "self" or fn[0].args.defaults or fn[0].args.vararg or fn[0].args.kwarg:
+            raise TranslateError("Cosmo.%s signature" % meth)
+        a, b = args[1], args[2]
+        body = [st for st in fn[0].body if not (isinstance(st, ast.Expr) and isinstance(st.value, ast.Constant))]
+        if len(body) != 2 or not isinstance(body[0], ast.If) or not isinstance(body[1], ast.Return):
+            raise TranslateError("Cosmo.%s is not `if ... ; return result`" % meth)
+        res = [None]
+        node, expr, depth = body[0], "", 0
+        while True:
+            expr += "if %s then %s else " % (_disp_cond(node.test, a, b), _disp_branch(node.body, meth, a, b, res))
+            if len(node.orelse) == 1 and isinstance(node.orelse[0], ast.If):
+                node = node.orelse[0]
+                continue
+            if not node.orelse:
+                raise TranslateError("Cosmo.%s: if-chain without else" % meth)
+            expr += _disp_branch(node.orelse, meth, a, b, res)
+            break
+        if not (isinstance(body[1].value, ast.Name) and body[1].value.id == res[0]):
+            raise TranslateError("Cosmo.%s does not return the result of the chosen entry point" % meth)
+        out.append("Definition dispatch_src_%s (sa sb ne : bool) : nat := (%s)%%bool." % (meth, expr))
+    return "\n".join(out)
 
 
 def _src(text, node):
